@@ -36,7 +36,7 @@ func runC08(x *mc.X) {
 	}
 	lm := httpDate(w.Epoch.Add(-secs(100)))
 	baseH := func(ccv string) [][2]string {
-		h := H("Vary", "X-A")
+		h := H("Vary", "X-A", "X-Note", "first draft")
 		h = hdrIf(h, "Cache-Control", ccv)
 		if validators == "etag" || validators == "both" {
 			h = append(h, [2]string{"ETag", `"v1"`})
@@ -117,7 +117,8 @@ func runC08(x *mc.X) {
 				hh := H("Vary", "X-A")
 				switch ans {
 				case "304+X-New":
-					hh = append(hh, [2]string{"X-New", fmt.Sprintf("n%d", r)})
+					// a new field, and a stored field that the 304 carries with an empty value (present-but-empty replaces, too)
+					hh = append(hh, [2]string{"X-New", fmt.Sprintf("n%d", r)}, [2]string{"X-Note", ""})
 				case "304+max-age=20":
 					hh = append(hh, [2]string{"Cache-Control", "max-age=20"})
 				case "304+two-cc-lines": // a repeated field: both lines replace the stored field
